@@ -1379,6 +1379,13 @@ class StyleProcessors:
   class WritingMode(StyleProcessor):
     style_prop = styles.StyleProperties.WritingMode
 
+    @classmethod
+    def inherit(cls, parent: model.ContentElement, element: model.ContentElement):
+      # tts:writingMode applies to regions only and is not inherited, but its computed value is carried down
+      # to content elements, so that _get_writing_mode() returns the writing mode of the region while
+      # the ISD elements are not yet linked to their parents (it is removed again as not applicable)
+      element.set_style(cls.style_prop, parent.get_style(cls.style_prop))
+
   BY_STYLE_PROP = {
     processor.style_prop : processor
     for processor_name, processor in list(locals().items()) if inspect.isclass(processor) and processor.style_prop is not None
